@@ -38,6 +38,11 @@ try:
     demo = os.path.join(wt, "out", "x", "demo.py")
     shutil.copy(os.path.join(dst, "demo.py"), demo)
     rc0, o0 = sh("/venv/bin/python %s" % demo, cwd=wt, env=env)
+    if rc0 != 0:
+        # demos written next to patch.diff locate repository files as <worktree>/out/../...
+        demo = os.path.join(wt, "out", "demo.py")
+        shutil.copy(os.path.join(dst, "demo.py"), demo)
+        rc0, o0 = sh("/venv/bin/python %s" % demo, cwd=wt, env=env)
     rc, out = sh("git apply %s" % patch, cwd=wt)
     assert rc == 0, "patch does not apply: " + out
     rc1, o1 = sh("/venv/bin/python %s" % demo, cwd=wt, env=env)
